@@ -365,6 +365,19 @@ def crafted() -> list[dict]:
     return out
 
 
+FLOAT_DEFAULT_TEXTS = {"Ratio": "0.1234567", "Limit": "16777217.0", "Weight": "2.718281828", "Half": "0.5",
+                       "Debt": "-1.5", "Third": "0.3333333333333333", "Total": "0.30000000000000004",
+                       "Big": "123456789012.25", "Nothing": "0.0", "TaggedRate": "1234567.875"}
+
+
+def crafted_float_defaults() -> list[dict]:
+    """float64 fields with explicit non-zero defaults (outside the subset the generator model covers: the
+    harness compares the generated defaults and default bytes with the definition's text directly)"""
+    fields = [{"name": n, "type": "float64", "versions": "0+", "default": t} for n, t in FLOAT_DEFAULT_TEXTS.items()]
+    fields[-1].update(taggedVersions="0+", tag=0)
+    return [{"type": "data", "name": "Zc16FloatRecord", "validVersions": "0", "flexibleVersions": "0+", "fields": fields}]
+
+
 def crafted_same_name_commons() -> list[dict]:
     """four definitions that each declare a common structure of the same name with different members,
     referenced *before* its declaration by another common structure of the file (each file is its own
